@@ -426,11 +426,28 @@ theorem electorStart_frame (ops : StoreOps σ ρ) (st : Srv σ) (s : Int) :
 theorem electorStop_get (st : Srv σ) (s k : Int) :
     (electorStop st s).stores.get k = if k = s then none else st.stores.get k := by
   unfold electorStop
-  simp only
   rw [stopLeading_get]
   split
   · rfl
-  · split <;> rfl
+  · unfold electorStopPre; split <;> rfl
+
+theorem electorStopPre_frame (st : Srv σ) (s : Int) :
+    (electorStopPre st s).me = st.me ∧ (electorStopPre st s).n = st.n ∧
+    (electorStopPre st s).stores = st.stores ∧ (electorStopPre st s).lister = st.lister := by
+  unfold electorStopPre; split <;> exact ⟨rfl, rfl, rfl, rfl⟩
+
+/-- the elector's half of losing a shard: afterwards the recorded leader is not me any more (if it was), exactly
+    as the `lose` callback says -/
+theorem electorStopPre_leaders (st : Srv σ) (s' : Int) (f : Int → Option Str) (hf : ∀ s, st.leaders.get s = f s) (s : Int) :
+    (electorStopPre st s').leaders.get s = if s = s' then (if (f s').getD [] == st.me then none else f s') else f s := by
+  unfold electorStopPre leaderName
+  rw [hf s']
+  split
+  · simp only [AL.get_del]
+    split <;> simp_all
+  · split
+    · rename_i e; subst e; simp [hf]
+    · exact hf s
 
 /-! ## isolation: a shard's store is read and written only through its own shard -/
 
@@ -590,7 +607,9 @@ theorem step_me_n (ops : StoreOps σ ρ) (st : Srv σ) (e : Op) :
   | gain s => exact ⟨(electorStart_frame ops st _).1, (electorStart_frame ops st _).2.1⟩
   | lose s =>
     show (electorStop st s).me = st.me ∧ (electorStop st s).n = st.n
-    unfold electorStop; simp only; split <;> exact ⟨rfl, rfl⟩
+    exact ⟨(electorStopPre_frame st s).1, (electorStopPre_frame st s).2.1⟩
+  | loseBegin s => exact ⟨(electorStopPre_frame st s).1, (electorStopPre_frame st s).2.1⟩
+  | loseEnd s => exact ⟨rfl, rfl⟩
   | newLeader s id => exact ⟨rfl, rfl⟩
   | leaderCheck => exact ⟨(leaderCheck_frame ops st).1, (leaderCheck_frame ops st).2.1⟩
   | listerAdd u => exact ⟨rfl, rfl⟩
@@ -608,19 +627,13 @@ theorem step_leaders (ops : StoreOps σ ρ) (st : Srv σ) (e : Op) (f : Int → 
   · rw [(electorStart_frame ops st _).2.2.1, AL.get_set]
     split <;> simp [hf]
   · rename_i s'
-    unfold electorStop
-    simp only
     have hfr : ∀ x : Srv σ, (stopLeading x s').leaders = x.leaders := fun _ => rfl
+    unfold electorStop
     rw [hfr]
-    unfold leaderName
-    rw [hf s']
-    split
-    · simp only [AL.get_del]
-      split <;> simp_all
-    · rename_i hne
-      split
-      · rename_i e; subst e; simp [hf]
-      · exact hf s
+    exact electorStopPre_leaders st s' f hf s
+  · rename_i s'
+    exact electorStopPre_leaders st s' f hf s
+  · exact hf s
   · unfold setLeader
     simp only [AL.get_set]
     split <;> simp [hf]
@@ -685,12 +698,18 @@ theorem step_wf (ops : StoreOps σ ρ) (P : Int → Prop) (st : Srv σ) (e : Op)
     rw [(electorStart_frame ops st s).2.2.1]
     exact wf_set P _ s _ h (he s rfl)
   | lose s =>
-    show LeadersWF P (electorStop st s).leaders
-    unfold electorStop
-    simp only
+    show LeadersWF P (electorStopPre st s).leaders
+    unfold electorStopPre
     split
     · exact wf_del P _ s h
     · exact h
+  | loseBegin s =>
+    show LeadersWF P (electorStopPre st s).leaders
+    unfold electorStopPre
+    split
+    · exact wf_del P _ s h
+    · exact h
+  | loseEnd s => exact h
   | newLeader s id => exact wf_set P _ s id h (he s rfl)
   | leaderCheck => show LeadersWF P (leaderCheck ops st).leaders; rw [(leaderCheck_frame ops st).2.2.1]; exact h
   | listerAdd u => exact h
@@ -792,3 +811,98 @@ theorem stopWithRetry_succeeds (fuel : Nat) (api : List Bool) (s : KStore) (i : 
         exact ih api.tail _ j (by omega) this
 
 end KG.Lemmas.Shard
+
+/-! ## overlapping starts and stops of one shard -/
+namespace KG.Lemmas.ShardOverlap
+open KG KG.Model.Shard.Overlap
+
+/-- the invariant: a store whose flusher is running is the store in the map -/
+def OInv (st : OState) : Prop := ∀ i, running st i → st.map = some i
+
+theorem set_true_running (l : List Bool) (id i : Nat) (h : (l.set id true)[i]? = some false) :
+    i ≠ id ∧ l[i]? = some false := by
+  by_cases e : i = id
+  · subst e
+    rw [List.getElem?_set] at h
+    simp at h
+  · refine ⟨e, ?_⟩
+    rw [List.getElem?_set] at h
+    have : ¬ id = i := fun x => e x.symm
+    simpa [this] using h
+
+theorem startBegin_inv (st : OState) (b : Bool) (h : OInv st) : OInv (startBegin st b) := by
+  unfold startBegin
+  split
+  · exact h
+  · rename_i hm
+    intro i hi
+    unfold running at hi
+    simp only at hi ⊢
+    by_cases e : i < st.stores.length
+    · rw [List.getElem?_append_left e] at hi
+      have := h i hi
+      rw [hm] at this; cases this
+    · have e' : st.stores.length ≤ i := by omega
+      rw [List.getElem?_append_right e'] at hi
+      by_cases e2 : i - st.stores.length = 0
+      · have : i = st.stores.length := by omega
+        rw [this]
+      · have : ([false] : List Bool)[i - st.stores.length]? = none := by
+          apply List.getElem?_eq_none; simp; omega
+        rw [this] at hi; cases hi
+
+theorem startFail_inv (st : OState) (id : Nat) (h : OInv st) : OInv (startFail st id) := by
+  intro i hi
+  unfold startFail running at *
+  simp only at hi ⊢
+  obtain ⟨hne, hr⟩ := set_true_running _ _ _ hi
+  have := h i hr
+  rw [this]
+  have : ¬ (some i = some id) := fun x => hne (Option.some.inj x)
+  simp [this]
+
+theorem dropStore_inv (st : OState) (h : OInv st) : OInv (dropStore st) := by
+  unfold dropStore
+  split
+  · exact h
+  · rename_i id hm
+    intro i hi
+    unfold running at hi
+    simp only at hi ⊢
+    obtain ⟨hne, hr⟩ := set_true_running _ _ _ hi
+    have := h i hr
+    rw [hm] at this
+    exact absurd (Option.some.inj this).symm hne
+
+theorem leader_irrelevant (st : OState) (b : Bool) (h : OInv st) : OInv { st with leader := b } := h
+
+theorem step_inv (st : OState) (o : OOp) (h : OInv st) : OInv (step st o) := by
+  cases o with
+  | begin => exact startBegin_inv _ _ (leader_irrelevant st true h)
+  | finishFail id => simp only [step]; split; exact startFail_inv st id h; exact h
+  | finishOk id =>
+    simp only [step]
+    split
+    · split
+      · exact startFail_inv st id h
+      · exact h
+    · exact h
+  | lose => exact dropStore_inv _ (leader_irrelevant st false h)
+  | check => simp only [step]; split; exact startBegin_inv st false h; exact dropStore_inv st h
+
+theorem run_inv (ops : List OOp) : OInv (run ops) := by
+  suffices H : ∀ (ops : List OOp) (st : OState), OInv st → OInv (ops.foldl step st) from
+    H ops init (by intro i hi; simp [running, init] at hi)
+  intro ops
+  induction ops with
+  | nil => intro st h; exact h
+  | cons o ops ih => intro st h; exact ih _ (step_inv st o h)
+
+theorem dropStore_map (st : OState) : (dropStore st).map = none := by
+  unfold dropStore; split <;> simp_all
+
+
+theorem run_snoc (ops : List OOp) (o : OOp) : run (ops ++ [o]) = step (run ops) o := by
+  unfold run; simp [List.foldl_append]
+
+end KG.Lemmas.ShardOverlap
